@@ -215,6 +215,32 @@ CASES = [
     ("s-c18-reformat", "C18", "silent", "*REFORMAT*", "", "", ""),
     ("s-c19-reformat", "C19", "silent", "*REFORMAT*", "", "", ""),
     ("s-c20-reformat", "C20", "silent", "*REFORMAT*", "", "", ""),
+    # ---------------- round-3 rules
+    ("m-c09-opname-normalised", "C09", "fire", "xdis/opcodes/base.py", "    loc[\"opname\"][opcode] = op_name\n    loc[\"opmap\"][op_name] = opcode\n    loc[\"oppush\"][opcode] = push",
+     "    loc[\"opname\"][opcode] = op_name.replace(\"+\", \"_\")\n    loc[\"opmap\"][op_name] = opcode\n    loc[\"oppush\"][opcode] = push", "opname-spelling"),
+    ("m-c02-opname-normalised", "C02", "fire", "xdis/opcodes/base.py", "    loc[\"opname\"][opcode] = op_name\n    loc[\"opmap\"][op_name] = opcode\n    loc[\"oppush\"][opcode] = push",
+     "    loc[\"opname\"][opcode] = op_name.replace(\"+\", \"_\")\n    loc[\"opmap\"][op_name] = opcode\n    loc[\"oppush\"][opcode] = push", "opname-spelling"),
+    ("m-c13-int-width", "C13", "fire", "xdis/marsh.py", "        y = x >> 31\n        if y and y != -1:", "        y = x >> 32\n        if y and y != -1:", "int-width"),
+    ("s-c13-int-width-range", "C13", "silent", "xdis/marsh.py", "        y = x >> 31\n        if y and y != -1:", "        y = x >> 31\n        if not (-2147483648 <= x <= 2147483647):", ""),
+    ("m-c14-dump-route-none", "C14", "fire", "xdis/marsh.py", "        if self.python_version and self.python_version < (3, 0) and PYTHON3:", "        if (not self.python_version or self.python_version < (3, 0)) and PYTHON3:", "R9"),
+    ("m-c18-global-width", "C18", "fire", "xdis/instruction.py", "        fields.append(self.opname.ljust(_OPNAME_WIDTH))",
+     "        global _OPNAME_WIDTH\n        _OPNAME_WIDTH = max(_OPNAME_WIDTH, len(self.opname))\n        fields.append(self.opname.ljust(_OPNAME_WIDTH))", "globalvar:"),
+    ("s-c18-local-width", "C18", "silent", "xdis/instruction.py", "        fields.append(self.opname.ljust(_OPNAME_WIDTH))",
+     "        width = max(_OPNAME_WIDTH, 0)\n        fields.append(self.opname.ljust(width))", ""),
+    ("m-c18-lru-labels", "C18", "fire", "xdis/wordcode.py", "def findlabels(code, opc):", "import functools\n\n\n@functools.lru_cache(maxsize=64)\ndef findlabels(code, opc):", "memoised-result"),
+    ("s-c18-lru-immutable", "C18", "silent", "xdis/cross_dis.py", "def instruction_size(op, opc):", "import functools\n\n\n@functools.lru_cache(maxsize=None)\ndef instruction_size(op, opc):", ""),
+    ("m-c19-decoder-guard", "C19", "fire", "xdis/cross_dis.py", "lineno != lastlineno or dup_lines and 0 < byte_incr < 255", "(lineno != lastlineno or dup_lines) and 0 < byte_incr < 255", "C05-R2"),
+    ("m-c17-positions-cached", "C17", "fire", "xdis/codetype/code311.py", "        for length, start_line, end_line, start_col, end_col in parse_location_entries(\n            self.co_linetable, self.co_firstlineno\n        ):",
+     "        if not hasattr(self, \"_entries\"):\n            self._entries = parse_location_entries(self.co_linetable, self.co_firstlineno)\n        for length, start_line, end_line, start_col, end_col in self._entries:", "second-call-decodes-current-fields"),
+    ("s-c17-positions-local", "C17", "silent", "xdis/codetype/code311.py", "        for length, start_line, end_line, start_col, end_col in parse_location_entries(\n            self.co_linetable, self.co_firstlineno\n        ):",
+     "        table, first = self.co_linetable, self.co_firstlineno\n        entries = parse_location_entries(table, first)\n        for length, start_line, end_line, start_col, end_col in entries:", ""),
+    ("m-c17-colines-cached", "C17", "fire", "xdis/codetype/code311.py", "        return parse_linetable(self.co_linetable, self.co_firstlineno)",
+     "        if getattr(self, \"_lines\", None) is None:\n            self._lines = list(parse_linetable(self.co_linetable, self.co_firstlineno))\n        return self._lines", "second-call-decodes-current-fields"),
+    ("m-c12-linestarts-unguarded", "C12", "fire", "xdis/instruction.py", "                    and line_starts is not None\n                    and line_starts.get(self.argval) is not None", "                    and line_starts.get(self.argval) is not None", "optional:line_starts"),
+    ("s-c12-linestarts-truthy", "C12", "silent", "xdis/instruction.py", "                    and line_starts is not None\n                    and line_starts.get(self.argval) is not None", "                    and line_starts\n                    and line_starts.get(self.argval) is not None", ""),
+    ("m-c06-header-unguarded", "C06", "fire", "xdis/disasm.py", "    if source_size is not None:\n        real_out.write(\"# Source code size mod 2**32: %d bytes\\n\" % source_size)", "    if True:\n        real_out.write(\"# Source code size mod 2**32: %d bytes\\n\" % source_size)", "R6"),
+    ("m-c03-getinstr-self-tables", "C03", "fire", "xdis/bytecode.py", "            line_offset = 0\n        return get_instructions_bytes(\n            co.co_code,\n            self.opc,\n            co.co_varnames,\n            co.co_names,\n            co.co_consts,",
+     "            line_offset = 0\n        return get_instructions_bytes(\n            co.co_code,\n            self.opc,\n            co.co_varnames,\n            self.codeobj.co_names,\n            co.co_consts,", "tables-of-the-argument"),
 ]
 
 
